@@ -6,6 +6,7 @@ CFG = P(
     aux={"vchild": "harness/C15_child.c"},
     ldflags=["-Wl,--wrap=waitpid,--wrap=poll,--wrap=read,--wrap=write,--wrap=kill,--wrap=gettimeofday,--wrap=fork,--wrap=pipe,--wrap=close"],
     engine="E-PROC",
+    sanitizer="none",  # every execution forks; forking an ASan process costs ~13 ms (shadow page tables) against ~0.3 ms without
     deadline={"quick": 900, "thorough": 7200},
     rule="one case = one scenario (API, payload size, child script, check flag, timeout); inside it every sequence of run-ahead decisions (at each parent waitpid/poll/read/write the scripted child runs 0,1,2 or all of its remaining steps first) with at most the stated number of non-default decisions is executed against the real Process.cc with a real forked child; every scenario is non-trivial (>= 2 schedules)",
     bounds={
@@ -17,6 +18,7 @@ CFG = P(
         "SIGPIPE is ignored in the calling process (a library cannot avoid the signal on pipes); EPIPE handling is checked",
         "the child is the scripted helper; grandchildren holding the pipes, descriptors >= 1024 and real-time behaviour are not covered (time is virtual and advances only when the parent sleeps in poll with a timeout while the child cannot move)",
         "child steps are atomic at the granularity of one read()/write() of at most 64 KiB",
+        "this harness is built without AddressSanitizer (fork cost); memory safety of Process.cc is not an oracle here",
     ],
     technique="deviation-bounded exhaustive enumeration of parent/child schedules on the real code (scripted child process, link-time interposed system calls, virtual time)",
     level_text="For each scenario every schedule in which the child runs ahead of the parent at up to 1-3 of the parent's system calls (and otherwise only when the parent would sleep) is executed on the real run_process/communicate with a real child; completeness of stdout/stderr, payload delivery, wait status, check/timeout behaviour, reaping, descriptor leaks and deadlock (both sides blocked) are decided on every execution.",
